@@ -73,6 +73,11 @@ func main() {
 		st := explore.WorkerDFS(os.Args[2], os.Args[3], b, shard, of, time.UnixMilli(dl))
 		out, _ := json.Marshal(st)
 		fmt.Println(string(out))
+	case "worker-cases":
+		shard, _ := strconv.Atoi(os.Args[4])
+		of, _ := strconv.Atoi(os.Args[5])
+		dl, _ := strconv.ParseInt(os.Args[6], 10, 64)
+		explore.WorkerCases(os.Args[2], os.Args[3], shard, of, time.UnixMilli(dl))
 	case "worker-bfs":
 		explore.WorkerBFS(os.Args[2], os.Args[3])
 	case "selftest":
